@@ -141,4 +141,4 @@ impl Reader {
 // Verification hook (inert unless built by `cargo kani`): harnesses for the private items of this module.
 #[cfg(kani)]
 #[path = "/verif/kani/incrate/h_site_reader.rs"]
-mod verif_kani;
+pub(crate) mod verif_kani;
